@@ -31,4 +31,70 @@ pub mod task {
     {
         ::tokio::task::spawn(Gated::new(future))
     }
+
+    /// Under simulation a blocking task is a real OS thread which only runs while the
+    /// scheduler has granted it the baton.
+    pub fn spawn_blocking<F, R>(f: F) -> ::tokio::task::JoinHandle<R>
+    where
+        F: FnOnce() -> R + Send + 'static,
+        R: Send + 'static,
+    {
+        let Some(sched) = super::super::scheduler() else {
+            return ::tokio::task::spawn_blocking(f);
+        };
+        let id = sched.new_blocking();
+        let handle = ::tokio::runtime::Handle::current();
+        let (tx, rx) = ::tokio::sync::oneshot::channel();
+        let s2 = sched.clone();
+        std::thread::Builder::new()
+            .name(format!("sim-blocking-{id}"))
+            .spawn(move || {
+                super::super::install_scheduler(Some(s2.clone()));
+                super::super::set_blocking_id(id);
+                let _rt = handle.enter();
+                s2.blocking_wait_grant(id);
+                let res = std::panic::catch_unwind(std::panic::AssertUnwindSafe(f));
+                let _ = tx.send(res);
+                s2.blocking_yield(id, super::super::Yield::Done);
+            })
+            .expect("spawn simulated blocking thread");
+        // The join handle is an ordinary (gated) task relaying the thread's result.
+        ::tokio::task::spawn(Gated::new(async move {
+            match rx.await {
+                Ok(Ok(v)) => v,
+                Ok(Err(p)) => std::panic::resume_unwind(p),
+                Err(_) => panic!("simulated blocking thread vanished"),
+            }
+        }))
+    }
+}
+
+pub mod runtime {
+    pub use ::tokio::runtime::*;
+
+    /// `tokio::runtime::Handle` whose `block_on`, on a simulated blocking thread, polls the
+    /// future on that thread and hands the baton back whenever the future is pending.
+    pub struct Handle(::tokio::runtime::Handle);
+
+    impl Handle {
+        pub fn current() -> Self {
+            Self(::tokio::runtime::Handle::current())
+        }
+
+        #[track_caller]
+        pub fn block_on<F: std::future::Future>(&self, f: F) -> F::Output {
+            let (Some(id), Some(sched)) = (super::super::current_blocking_id(), super::super::scheduler()) else {
+                return self.0.block_on(f);
+            };
+            let waker = sched.blocking_waker(id);
+            let mut cx = std::task::Context::from_waker(&waker);
+            let mut f = std::pin::pin!(f);
+            loop {
+                if let std::task::Poll::Ready(v) = f.as_mut().poll(&mut cx) {
+                    return v;
+                }
+                sched.blocking_yield(id, super::super::Yield::Blocked);
+            }
+        }
+    }
 }
